@@ -126,6 +126,32 @@ def _worker(args):
     return out
 
 
+def _worker_retry(args):
+    key, tier, todo = args
+    from . import verify, solve
+    G = _worker.G
+    I, DB, repo = G["I"], G["DB"], G["repo"]
+    c = DB.contracts.get(key) or DB.variants.get(key)
+    fi = repo.functions.get(c.qualname)
+    res = verify.verify_function(I, c, fi)
+    obs = list(res.obligations)
+    bc, bfi = verify.find_base_contract(I, c, fi)
+    if bc is not None and res.error is None:
+        obs += verify.verify_refinement(I, c, fi, bc, bfi).obligations
+    want = {(n, json.dumps(p)) for n, p in todo}
+    out = {}
+    for ob in obs:
+        k = (ob.name, json.dumps(ob.meta.get("path")))
+        if k not in want:
+            continue
+        try:
+            r = solve.decide(ob, res.str_axioms, 240000, True)
+            out[k] = {"status": r[1], "backend": r[2], "seconds": r[3], "model": r[4], "tried": r[5]}
+        except Exception as e:
+            out[k] = {"status": "error", "error": str(e)}
+    return key, out
+
+
 def select_contracts(DB, repo, prop):
     keys = []
     for key, c in list(DB.contracts.items()) + list(DB.variants.items()):
@@ -227,7 +253,7 @@ def main(argv=None):
         jobs = []
         for k in verify_keys:
             n = sizes.get(k, 40)
-            nch = max(1, min(12, (n + 39) // 40))
+            nch = max(1, min(16, (n + 39) // 40))
             jobs += [(k, tier, c, nch) for c in range(nch)]
         jobs.sort(key=lambda j: -sizes.get(j[0], 40))
         ctx = mp.get_context("fork")
@@ -238,13 +264,33 @@ def main(argv=None):
         for k, ps in parts.items():
             ps.sort(key=lambda r: r["chunk"][0])
             base = ps[0]
+            base["path_ok"] = dict(base.get("path_ok") or {})
             for p in ps[1:]:
+                base["path_ok"].update(p.get("path_ok") or {})
                 base["obligations"] += p["obligations"]
                 base["error"] = base["error"] or p["error"]
                 base["seconds"] = max(base.get("seconds", 0), p.get("seconds", 0))
             if not base["error"] and len(base["obligations"]) != base.get("n_generated"):
                 base["error"] = "crash: chunks cover %d of %d obligations" % (len(base["obligations"]), base.get("n_generated"))
             results.append(base)
+        # second pass: obligations left `unknown` while all cores were busy are decided again with few workers and a long
+        # budget (verdicts must not depend on the load of the machine)
+        retry = []
+        for r in results:
+            todo = [(o["name"], o.get("path")) for o in r["obligations"] if o["status"] not in ("unsat", "sat", "error")]
+            if todo and not r["error"]:
+                retry.append((r["key"], tier, todo))
+        if retry:
+            with ctx.Pool(processes=max(1, min(4, len(retry)))) as pool:
+                for key, recs in pool.imap_unordered(_worker_retry, retry, chunksize=1):
+                    for r in results:
+                        if r["key"] != key:
+                            continue
+                        for o in r["obligations"]:
+                            new = recs.get((o["name"], json.dumps(o.get("path"))))
+                            if new is not None:
+                                o.update(new)
+                                o["retried"] = True
         new_sizes = dict(sizes)
         for r in results:
             new_sizes[r["key"]] = r.get("n_generated", len(r["obligations"]))
